@@ -72,7 +72,7 @@ impl HashEntry {
 }
 
 /// Hash table
-#[derive(Debug)]
+#[derive(Debug, Clone)]
 pub struct HashTable {
     entries: Vec<HashEntry>,
     mask: usize,
